@@ -192,3 +192,84 @@ def run_dimless(c, ctx, parse_text):
         if obs is None or not close(obs, exp, 1e-9):
             devs.append(dev('dimensionless-result:not-expressed-in-the-requested-unit', dict(text=text, observed=obs, expected=exp)))
     return outcome(classes=classes, nontrivial=True, fp='dimless ' + text, dev=devs, monitors=mon, sample=dict(text=text, expected=exp if exp is not None else 'rejected', observed=obs))
+
+
+# ------------------------------------------------------------------------------------------------ function arguments
+# "exp/log/log10/sin/cos(<expr>) return ... of a dimensionless expression": a dimensionless argument may be written in a
+# dimensionless UNIT (a node in %, in ppth, in a custom pure-number unit, or a ratio of two lengths in different units);
+# it stands for the pure number value*factor.
+
+KEY_FNARG = 'C18-function-argument-in-dimensionless-unit-taken-raw'
+DIMLESS_UNITS = {'%': 0.01, 'ppth': 0.001, 'none': 1.0, 'custom-dozen': 12.0, 'ratio-cm-m': None}
+
+
+def gen_fnarg(rng):
+    return dict(t='fnarg', fn=rng.choice(['exp', 'log', 'log10', 'sin', 'cos', 'tan', 'sqrt', 'pow-exponent', 'pow-base']),
+                unit=rng.choice(['%', '%', 'ppth', 'none', 'custom-dozen', 'ratio-cm-m']), x=rng.choice([50, 25, 150, 80, 12.5]),
+                tail=rng.choice(['', ' + 1', ' * 2']), via=rng.choice(['node', 'node', 'literal']))
+
+
+def run_fnarg(c, ctx, parse_text):
+    import math
+    unit, x = c['unit'], float(c['x'])
+    L = []
+    if unit == 'ratio-cm-m':
+        pure = x * 0.01 / 2.0                      # x cm / 2 m
+        L += ['p float = %r cm' % x, 'q float = 2 m']
+        arg = '{?p} / {?q}'
+    else:
+        pure = x * DIMLESS_UNITS[unit]
+        if unit == 'custom-dozen':
+            pure = x / 100.0 * 12.0                  # keep the number small: x/100 dozen
+            L.append('$unit dozen = 12')
+            lit = '%r [dozen]' % (x / 100.0)
+        elif unit == 'none':
+            pure = x / 100.0
+            lit = '%r' % (x / 100.0)
+        else:
+            lit = '%r %s' % (x, unit)
+        if c['via'] == 'node':
+            L.append('r float = ' + lit)
+            arg = '{?r}'
+        else:
+            arg = lit
+    fn = c['fn']
+    if fn == 'pow-exponent':
+        call, val = 'pow(2,%s)' % arg, 2.0 ** pure
+    elif fn == 'pow-base':
+        call, val = 'pow(%s,2)' % arg, pure ** 2
+    else:
+        call = '%s(%s)' % (fn, arg)
+        val = {'exp': math.exp, 'log': math.log, 'log10': math.log10, 'sin': math.sin, 'cos': math.cos, 'tan': math.tan, 'sqrt': math.sqrt}[fn](pure)
+    exp = {'': val, ' + 1': val + 1, ' * 2': val * 2}[c['tail']]
+    L.append('a float = ("%s%s")' % (call, c['tail']))
+    text = '\n'.join(L) + '\n'
+    classes = ['function-argument', 'function-argument:' + fn, 'function-argument-unit:' + unit]
+    if unit not in ('none',):
+        classes.append('function-argument-in-dimensionless-unit')
+    devs, mon = [], dict(function_argument_programs=1)
+    kind, res = parse_text(ctx, text)
+    obs = None
+    # buggy twin of the repaired finding: the bare magnitude of the argument is used (and the result of log/log10 keeps the
+    # argument's unit); sin/cos/tan refuse a unit that is not an angle
+    raw = {'%': x, 'ppth': x, 'custom-dozen': x / 100.0}.get(unit)
+    fac = {'%': 0.01, 'ppth': 0.001, 'custom-dozen': 12.0}.get(unit)
+    if kind != 'ok':
+        known = KEY_FNARG if (fn in ('sin', 'cos', 'tan') and raw is not None and 'Unsupported conversion between units' in repr(res)) else None
+        devs.append(dev('function-argument:valid-program-rejected(%s,%s)' % (fn, 'pure-number' if unit == 'none' else 'dimensionless-unit'), dict(text=text, exc=repr(res)[:160]), known=known))
+    else:
+        obs = res.data().get('a')
+        if obs is None or not close(obs, exp, 1e-9, 1e-12):
+            known = None
+            if raw is not None and obs is not None:
+                try:
+                    tv = {'exp': lambda: math.exp(raw), 'log': lambda: math.log(raw) * fac, 'log10': lambda: math.log10(raw) * fac,
+                          'pow-exponent': lambda: 2.0 ** raw}.get(fn, lambda: None)()
+                except OverflowError:
+                    tv = None
+                if tv is not None:
+                    tw = {'': tv, ' + 1': tv + 1, ' * 2': tv * 2}[c['tail']]
+                    if close(obs, tw, 1e-9, 1e-12):
+                        known = KEY_FNARG
+            devs.append(dev('function-argument:not-taken-as-the-pure-number-it-stands-for(%s)' % fn, dict(text=text, observed=obs, expected=exp, argument_as_pure_number=pure), known=known))
+    return outcome(classes=classes, nontrivial=True, fp='fnarg ' + text, dev=devs, monitors=mon, sample=dict(text=text, expected=exp, observed=obs))
